@@ -395,11 +395,17 @@ fn stub_from_utf8(v: &[u8]) -> Result<&str, core::str::Utf8Error> {
     if unsafe { U_VALIDATOR_SAYS_OK } {
         Ok(unsafe { core::str::from_utf8_unchecked(v) })
     } else {
-        // some genuine Utf8Error value (from_utf8_mut does not go through the stubbed function)
-        let mut bad = [0xFFu8];
-        match core::str::from_utf8_mut(&mut bad) {
-            Err(e) => Err(e),
-            Ok(_) => loop {},
+        // some genuine Utf8Error value (from_utf8_mut does not go through the stubbed function):
+        // either "invalid byte" (error_len == Some(1)) or "input ends inside a sequence"
+        // (error_len == None), both with valid_up_to == 0
+        // (two calls on CONCRETE inputs: the real validator on a symbolic byte does not terminate)
+        let mut bad1 = [0xFFu8];
+        let mut bad2 = [0xC3u8];
+        let e1 = core::str::from_utf8_mut(&mut bad1);
+        let e2 = core::str::from_utf8_mut(&mut bad2);
+        match (e1, e2) {
+            (Err(a), Err(b)) => Err(if kani::any() { a } else { b }),
+            _ => loop {},
         }
     }
 }
